@@ -149,7 +149,14 @@ type absItem struct {
 // (directly or through callees). All others are treated as no-ops by the interpreter.
 func (e *absEngine) computeRelevant() {
 	e.relevant = map[*ssa.Function]bool{}
-	fns := append(e.w.FuncsInPkg("tmengine/internal/tmstate"), e.w.FuncsInPkg("tmstate/internal/tsi")...)
+	// every function of the two packages, including helpers that rule iteration folds into their
+	// caller (new single-call-site functions): the interpreter walks raw SSA and must descend into them
+	var fns []*ssa.Function
+	for _, f := range e.w.AllFuncs {
+		if p := fnPkg(f); p != nil && (strings.HasSuffix(p.Pkg.Path(), "tmengine/internal/tmstate") || strings.HasSuffix(p.Pkg.Path(), "tmstate/internal/tsi")) {
+			fns = append(fns, f)
+		}
+	}
 	direct := func(fn *ssa.Function) bool {
 		rel := false
 		for _, b := range fn.Blocks {
